@@ -37,15 +37,9 @@ class Point(Domain):
     def bounding_box(self, params=Points.empty(), device="cpu"):
         if callable(self.point.fun):  # if point moves
             return self._bounds_for_callable_point(params, device=device)
-        if isinstance(self.point.fun, (torch.Tensor, list)):
-            return self._bounds_for_higher_dimensions(device=device)
-        return torch.tensor(
-            [
-                self.point.fun - self.bounding_box_tol,
-                self.point.fun + self.bounding_box_tol,
-            ],
-            device=device,
-        )
+        # a fixed point can be given as a number, list, tuple, array or tensor of any
+        # dtype: always return the flat form [axis_1_min, axis_1_max, ...]
+        return self._bounds_for_higher_dimensions(device=device)
 
     def _bounds_for_callable_point(self, params, device="cpu"):
         bounds = []
@@ -61,8 +55,11 @@ class Point(Domain):
 
     def _bounds_for_higher_dimensions(self, device="cpu"):
         bounds = []
+        point = torch.as_tensor(self.point.fun).reshape(-1)
+        if not point.is_floating_point():
+            point = point.float()
         for i in range(self.space.dim):
-            p = self.point.fun[i]
+            p = point[i]
             # substract/add a value to get a real bounding box,
             # important if we later use these values to normalize the input
             bounds.append(p - self.bounding_box_tol)
